@@ -40,6 +40,9 @@ func init() {
 			"leadingZeros(p.Start.Day(), 2)", "leadingZeros(p.Start.YearDay(), 2)", "C26.component"},
 		Mutant{"C26", "escape-after-substitution", "internal/recordstore/path.go",
 			"		re = strings.ReplaceAll(re, string(ch), \"\\\\\"+string(ch))\n", "		re = strings.ReplaceAll(format, string(ch), \"\\\\\"+string(ch))\n", "C26.escape"},
+		// the 10-digit unix seconds parsed with the bit size of the other fields (saturates at 2^31-1)
+		Mutant{"C26", "unix-seconds-32bit", "internal/recordstore/path.go",
+			"unixSec, _ = strconv.ParseInt(v, 10, 64)", "unixSec, _ = strconv.ParseInt(v, 10, 32)", "C26.component"},
 	)
 }
 
@@ -133,7 +136,7 @@ func runC26(c *Ctx) {
 	}
 	c.Explain = "C26.tables: placeholder rows of Encode = Decode's regexp rows = groupMapping scan list = switch cases, prefix-free. " +
 		"C26.width: the constant capture pattern of each Decode row accepts exactly what Encode emits (N digits for leadingZeros(_,N); 4-digit years and 10-digit unix seconds for the unpadded rows; Z|[+-]hhmm) and has exactly one capturing group. " +
-		"C26.component: placeholder X <- component C of p.Start in Encode, and case X -> parameter C of time.Date / time.Unix (same 1000 scale for %f), %path <-> p.Path, default location time.Local. " +
+		"C26.component: placeholder X <- component C of p.Start in Encode, and case X -> parameter C of time.Date / time.Unix (same 1000 scale for %f; the capture is parsed in base 10 and every container on the way - ParseInt/ParseUint bit size, integer conversions, constant products, int counted as 32 bits - holds the largest text of the group), %path <-> p.Path, default location time.Local. " +
 		"C26.group_alignment: groupMapping is built from the unescaped format parameter, appended with the tested element, and values[groupMapping[i]] = matches[1:][i] with one index. " +
 		"C26.zone: sign and hh/mm arithmetic of timeLocationEncode/Decode agree. " +
 		"C26.escape: every regexp.QuoteMeta metacharacter is escaped (backslash first, no placeholder character escaped) and the substitution chain starts from the escaped string. " +
@@ -509,45 +512,64 @@ func runC26(c *Ctx) {
 
 	// ---------- C26.component
 	wantDate := []string{"Year", "Month", "Day", "Hour", "Minute", "Second", "Nanosecond", "zone"}
-	// source placeholder(s) of a sink argument: leaves through phis; a leaf
-	// int(ParseInt(case value)#0) [* const] in the block of case X.
+	// source placeholder(s) of a sink argument: the values it may stand for
+	// (c26Leaves, prop_gen_c26.go: through phis, conversions, constant products
+	// and new helpers per call site); a source is number(case value) [* const]
+	// or timeLocationDecode(case value) computed under case X.
 	type src struct {
 		ph    string
 		scale int64
 		other string
+		lossy string // why number() may lose information for the texts of the group
+	}
+	// caseFor: the case whose body every path to the block passes through
+	caseFor := func(b *ssa.BasicBlock) (string, bool) {
+		if b == nil {
+			return "", false
+		}
+		for body, ph := range caseOf {
+			if len(body.Preds) == 1 && body.Dominates(b) {
+				return ph, true
+			}
+		}
+		return "", false
+	}
+	isCaseValue := func(x rvalG4) bool {
+		ex, isEx := peelG4(x).v.(*ssa.Extract)
+		return isEx && nextVal != nil && ex.Tuple == nextVal && ex.Index == 2
 	}
 	sourcesOf := func(v ssa.Value) []src {
 		var out []src
-		scale := int64(1)
-		v = stripConv(v)
-		if b, ok := v.(*ssa.BinOp); ok && b.Op == token.MUL {
-			if n, ok := constBig(b.Y); ok {
-				scale = n.Int64()
-				v = stripConv(b.X)
-			}
-		}
-		for _, l := range phiLeaves(v) {
-			l = stripConv(l)
-			if _, isC := l.(*ssa.Const); isC {
+		for _, lf := range c26Leaves(v) {
+			l := lf.x
+			if _, isC := l.v.(*ssa.Const); isC {
 				continue
 			}
-			if ex, ok := l.(*ssa.Extract); ok && ex.Index == 0 {
-				if cl, ok := ex.Tuple.(*ssa.Call); ok && calleeName(&cl.Call) == "strconv.ParseInt" {
-					a0, isEx := cl.Call.Args[0].(*ssa.Extract)
-					if ph, has := caseOf[cl.Block()]; has && isEx && a0.Tuple == nextVal && a0.Index == 2 {
-						out = append(out, src{ph: ph, scale: scale})
-						continue
+			if arg, cl, hold, ok := c26Number(l); ok && isCaseValue(arg) {
+				if ph, has := caseFor(c26EntryBlock(dec, l, cl)); has {
+					s := src{ph: ph, scale: lf.scale}
+					if row := encT[ph]; row != nil && (row.kind == "padded" || row.kind == "decimal") {
+						w := row.width
+						if row.kind == "decimal" {
+							w = 4 // the years and unix seconds assumed (c.Assume), as in C26.width
+							if row.comp == "Unix" {
+								w = 10
+							}
+						}
+						hold.outer = lf.scale
+						s.lossy = c26Fits(w, lf.scale, append(lf.holds[:len(lf.holds):len(lf.holds)], hold))
 					}
+					out = append(out, s)
+					continue
 				}
 			}
-			if cl, ok := l.(*ssa.Call); ok && calleeName(&cl.Call) == "recordstore.timeLocationDecode" {
-				a0, isEx := cl.Call.Args[0].(*ssa.Extract)
-				if ph, has := caseOf[cl.Block()]; has && isEx && a0.Tuple == nextVal && a0.Index == 2 {
+			if cl, ok := l.v.(*ssa.Call); ok && calleeName(&cl.Call) == "recordstore.timeLocationDecode" && len(cl.Call.Args) == 1 && lf.scale == 1 {
+				if ph, has := caseFor(c26EntryBlock(dec, l, cl)); has && isCaseValue(rvalG4{cl.Call.Args[0], l.env}) {
 					out = append(out, src{ph: ph, scale: 1})
 					continue
 				}
 			}
-			out = append(out, src{other: desc(l)})
+			out = append(out, src{other: descG4(l)})
 		}
 		return out
 	}
@@ -567,6 +589,10 @@ func runC26(c *Ctx) {
 			}
 			phs = append(phs, s.ph)
 			row := encT[s.ph]
+			if s.lossy != "" {
+				okAll = false
+				detail += "value of " + s.ph + " not preserved: " + s.lossy
+			}
 			if row == nil || row.comp != comp || row.scale != s.scale {
 				okAll = false
 				got := "<none>"
